@@ -285,6 +285,10 @@ func CloneAndProcessTree(root *html.Node, pageURL *nurl.URL) *html.Node {
 // the name of one of HTML's raw text elements. Inside foreign content such an element holds
 // ordinary character data, but the HTML serializer goes by the name alone and writes that
 // data out unescaped, which turns it into markup once the output is parsed again.
+//
+// The same goes for the names of HTML's void elements: inside foreign content such an
+// element may have children, but the serializer refuses to write them (and dom.AppendChild
+// refuses to add any), so whatever it holds can't be rendered.
 func IsForeignRawTextElement(node *html.Node) bool {
 	if node.Type != html.ElementNode || node.Namespace == "" {
 		return false
@@ -292,6 +296,9 @@ func IsForeignRawTextElement(node *html.Node) bool {
 
 	switch node.Data {
 	case "iframe", "noembed", "noframes", "noscript", "plaintext", "script", "style", "xmp":
+		return true
+	case "area", "base", "br", "col", "embed", "hr", "img", "input", "keygen", "link",
+		"meta", "param", "source", "track", "wbr":
 		return true
 	}
 	return false
